@@ -495,3 +495,26 @@ Example C11_responses_only_example :
           [PHeader StoC hr false; SHeader StoC hr false]; [];
           [PMsg StoC (Some ["R"%char]) false; SData StoC [zero; zero; zero; zero; one; "R"]%char false]].
 Proof. vm_compute. reflexivity. Qed.
+
+(* clause id encoding_selection, error side: adapter.Header returns the
+   "unrecognized grpc-encoding" error exactly when the gRPC specification's
+   table rejects the announcement; `grpc-encoding: identity` (explicit), gzip,
+   deflate, snappy are always accepted; other spellings (upper case,
+   surrounding whitespace, lists) are rejected by the unchanged code. *)
+Theorem C11_encoding_error_iff_nonstandard : forall hs cur,
+  select_enc cur hs = None <-> std_rejects hs = true.
+Proof. exact select_enc_none_iff_std_rejects. Qed.
+Print Assumptions C11_encoding_error_iff_nonstandard.
+
+Example C11_announcement_examples :
+  let h (n v : string) := (list_ascii_of_string n, list_ascii_of_string v) in
+  std_rejects [h "grpc-encoding" "identity"]%string = false /\
+  std_rejects [h "grpc-encoding" "gzip"; h "grpc-encoding" "deflate"; h "grpc-encoding" "snappy"]%string = false /\
+  std_rejects [h "te" "trailers"]%string = false /\
+  std_rejects [h "grpc-encoding" "Identity"]%string = true /\
+  std_rejects [h "grpc-encoding" "GZIP"]%string = true /\
+  std_rejects [h "grpc-encoding" " gzip"]%string = true /\
+  std_rejects [h "grpc-encoding" "gzip "]%string = true /\
+  std_rejects [h "grpc-encoding" ""]%string = true /\
+  select_enc default_enc [h "grpc-encoding" "identity"]%string = Some Identity.
+Proof. vm_compute. repeat split. Qed.
